@@ -69,8 +69,8 @@ func encOut(items []rt.SinkItem) []any {
 func runDelete(r *rt.Run, env *rt.Env, t *rt.Trace) error {
 	tags := map[string]string{"a": "g"}
 	other := map[string]string{"a": "h"}
-	part1 := []in{{0, 1, 1}, {0, 3, 2}, {0, 3, 3}}
-	part2 := []in{{0, 3, 10}, {0, 2, 11}, {0, 3, 12}}
+	part1 := []in{{0, 1, 1, 0}, {0, 3, 2, 0}, {0, 3, 3, 0}}
+	part2 := []in{{0, 3, 10, 0}, {0, 2, 11, 0}, {0, 3, 12, 0}}
 	mk := func(p in, k int, tg map[string]string) imodels.Point {
 		return rt.MustPoint("m", tg, map[string]any{"x": int64(p.x), "k": int64(k)}, rt.DefaultTime.T(p.t))
 	}
@@ -101,7 +101,7 @@ func runDelete(r *rt.Run, env *rt.Env, t *rt.Trace) error {
 			}
 			if withOther {
 				// another group keeps flowing before the deletion (it must not matter)
-				env.Write("db", "rp", mk(in{1, 5, 3}, 0, other))
+				env.Write("db", "rp", mk(in{1, 5, 3, 0}, 0, other))
 			}
 			env.WaitIngress()
 			node := nodeNameOf(pp)
